@@ -613,3 +613,78 @@ Section Find.
       rewrite window_0_0 in H. rewrite window_0_1. congruence.
   Qed.
 End Find.
+
+Section Writes.
+  Variable matchf : doc -> doc -> res bool.
+  Variable applyf : doc -> doc -> doc -> bool -> list doc -> Z -> res (doc * list (string * value)).
+
+  (* close the branches in which the operation reports an error *)
+  Ltac failed := try (let H := fresh in intro H; cbv [Collection.fail Collection.failr] in H; discriminate H).
+
+  (* Replace (ReplaceOne / FindOneAndReplace) with a sort *)
+  Theorem replace_hits_first : forall c fresh q repl sort full c' r,
+    filter_total matchf (c_docs c) q ->
+    find_list matchf (c_docs c) q sort 0 0 = Ok full ->
+    coll_replace matchf c fresh q repl sort = (c', inl r) ->
+    r_matched r = firstn 1 full /\
+    match full with
+    | [] => c' = c
+    | first :: _ => exists new, c_docs c' = set_replace (c_docs c) (fst first) new
+    end.
+  Proof.
+    intros c fresh q repl sort full c' r FT Hfull.
+    unfold coll_replace.
+    rewrite (find_one_is_first matchf _ _ _ _ FT Hfull).
+    destruct full as [|old rest]; cbn [firstn].
+    - intro H. injection H as <- <-. split; reflexivity.
+    - cbv zeta.
+      match goal with |- (match ?p with _ => _ end) = _ -> _ => destruct p as [repl'| | | |] end; failed.
+      destruct (swap_all matchf (c_indexes c) old (fresh, repl')) as [ixs [e|]]; failed.
+      destruct (set_has (c_docs c) fresh); failed.
+      intro H. injection H as <- <-. cbn. split; [reflexivity|]. eexists. reflexivity.
+  Qed.
+
+  (* Update with limit 1 (UpdateOne / FindOneAndUpdate) and a sort *)
+  Theorem update_one_hits_first : forall c fresh q u sort afs now full c' r,
+    filter_total matchf (c_docs c) q ->
+    find_list matchf (c_docs c) q sort 0 0 = Ok full ->
+    coll_update matchf applyf c fresh q u sort 0 1 afs now = (c', inl r) ->
+    r_matched r = firstn 1 full /\
+    match full with
+    | [] => c' = c
+    | first :: _ => exists new, c_docs c' = set_replace (c_docs c) (fst first) new
+    end.
+  Proof.
+    intros c fresh q u sort afs now full c' r FT Hfull.
+    unfold coll_update.
+    rewrite (find_one_is_first matchf _ _ _ _ FT Hfull).
+    destruct full as [|old rest]; cbn [firstn].
+    - intro H. injection H as <- <-. split; reflexivity.
+    - cbn [apply_list].
+      destruct (applyf (snd old) q u false afs now) as [[d ch]| | | |]; cbn [bind fst snd]; failed.
+      match goal with |- (if ?b then _ else _) = _ -> _ => destruct b end; failed.
+      match goal with |- context [remove_docs ?a ?b ?l] => destruct (remove_docs a b l) as [ixs [e|]] end; failed.
+      match goal with |- context [add_docs ?a ?b ?l] => destruct (add_docs a b l) as [ixs' [e|]] end; failed.
+      match goal with |- context [modified_only ?a ?b ?l] => destruct (modified_only a b l) as [m cs] end.
+      intro H. injection H as <- <-. cbn. split; [reflexivity|]. eexists. reflexivity.
+  Qed.
+
+  (* Delete with limit 1 (DeleteOne / FindOneAndDelete) and a sort *)
+  Theorem delete_one_hits_first : forall c q sort full c' r,
+    filter_total matchf (c_docs c) q ->
+    find_list matchf (c_docs c) q sort 0 0 = Ok full ->
+    coll_delete matchf c q sort 0 1 = (c', inl r) ->
+    r_matched r = firstn 1 full /\
+    c_docs c' = match full with
+                | [] => c_docs c
+                | first :: _ => set_remove (c_docs c) (fst first)
+                end.
+  Proof.
+    intros c q sort full c' r FT Hfull.
+    unfold coll_delete.
+    rewrite (find_one_is_first matchf _ _ _ _ FT Hfull).
+    destruct (remove_docs matchf (c_indexes c) (firstn 1 full)) as [ixs [e|]]; failed.
+    intro H. injection H as <- <-. cbn [r_matched c_docs]. split; [reflexivity|].
+    destruct full; reflexivity.
+  Qed.
+End Writes.
